@@ -1668,6 +1668,15 @@ namespace jsoncons {
             {
                 return compare(basic_json(binary::decode_half(rhs.cast<half_storage>().value()), rhs.tag()));
             }
+            if (rhs.storage_kind() == json_storage_kind::const_json_ref)
+            {
+                // compare with the referenced value, whatever the kind of *this (null and others had no case for it)
+                return compare(rhs.cast<const_json_ref_storage>().value());
+            }
+            if (rhs.storage_kind() == json_storage_kind::json_ref)
+            {
+                return compare(rhs.cast<json_ref_storage>().value());
+            }
             switch (storage_kind())
             {
                 case json_storage_kind::const_json_ref:
